@@ -487,6 +487,52 @@ fn step2(w: &mut World, op: &R1Op, mut a: Args, before: Cost, dup: bool) -> Reso
                 None => failed = true,
             }
         }
+        R1Op::ScalarMulBits(i, h, nbits, pat) => {
+            let id = need!(a.e(w, *i));
+            let undefined = undefined_e(&w.es[&id]);
+            let (va, ea, ca, pa) = w.owned(id, "scalar_mul_le");
+            let bytes = h32(h);
+            let n = (*nbits as usize).clamp(1, 256);
+            let mut bits = Vec::new();
+            let mut all_const = true;
+            let mut masked = [0u8; 32];
+            for t in 0..n {
+                let bit = (bytes[t / 8] >> (t % 8)) & 1 == 1;
+                if bit {
+                    masked[t / 8] |= 1 << (t % 8);
+                }
+                let constant = match pat % 4 {
+                    0 => false,
+                    1 => true,
+                    2 => t < 64,
+                    _ => t % 3 == 0,
+                };
+                all_const &= constant;
+                let m = if constant { AllocationMode::Constant } else { AllocationMode::Witness };
+                if let Ok(b) = Boolean::new_variable(cs.clone(), || Ok(bit), m) {
+                    bits.push(b);
+                }
+            }
+            let r = guard(w, name, !undefined, || va.scalar_mul_le(bits.iter()));
+            match r {
+                Some(Ok(v)) => {
+                    // the bit string denotes an integer below 2^256; multiplying by it is multiplying by it mod r
+                    let k = decaf377::Fr::from_le_bytes_mod_order(&masked);
+                    let e = ea.map(|x| x * k);
+                    let zero = masked.iter().all(|b| *b == 0);
+                    let cst = all_const && (ca || zero);
+                    if n > 64 {
+                        w.probe("scalar_mul_with_more_than_64_bits");
+                    }
+                    outs.push(push_derived(w, name, v, e, cst, pa || e.is_none(), Memo::Elt, None));
+                }
+                Some(Err(e)) => {
+                    failed = true;
+                    gadget_failed(w, name, !undefined, e);
+                }
+                None => failed = true,
+            }
+        }
         R1Op::IsZero(i) => {
             let id = need!(a.e(w, *i));
             let undefined = undefined_e(&w.es[&id]);
